@@ -269,6 +269,8 @@ def coq_of_tokens(echo):
             out.append(f'OView {f[1]} {z(f[2])}')
         elif o == 'copy':
             out.append(f'OCopy {f[1]}')
+        elif o == 'dcopy':
+            out.append(f'ODeepCopy {f[1]}')
         elif o == 'seti':
             out.append(f'OSetInt {f[1]} {z(f[2])} {z(f[3])}')
         elif o == 'setr':
@@ -415,27 +417,29 @@ def run(chk: Check):
 
 
 UNPROVED = [
-    'C15_simulation_all (one relation spec_rel (absS st) o (absS st\') over ALL operations, pending lists in the abstract '
-    'state) is NOT stated.  Proved instead, for every reachable state: C15_simulation (absC (step st o) = spec_step (absC st) '
-    'o; abstract state = per object (alive, list of arrays)) for construction, un-cached append, extend, indexing, view '
-    'constructor, copy, out-of-place operators and drop; the evolution of the sharing relation R for growth '
-    '(C15_links_growth: links between other objects unchanged, links of the grown object may be cut, never created = '
-    'S-C15d), indexing / copy / writes (C15_links_view/_copy/_write); assignments and in-place operators as functions of '
-    '(contents, R) (C15_own_contents_setitem_*, _inplace, _opseq_inplace); cached builds through the visible+pending list '
-    '(C15_own_contents_append/_finalize); concatenate, concatenate(axis=1), refused append, shrink_data, seq[idx, cols] by '
-    'their own theorems.  Missing: "the pending elements of every OTHER object are unchanged" (needed to put pending lists '
-    'into the abstract state), "the new object of an out-of-place operator / constructor / concatenate is linked to '
-    'nothing" (proved for copy only), and the packaging',
+    'C15_simulation_all (ONE relation spec_rel (absS st) o (absS (step st o)) over the whole alphabet, pending lists in the '
+    'abstract state, and its corollary C15_histories_list_model) is still NOT stated.  All its ingredients are now proved '
+    'for every reachable state: contents of the target / created object per operation (C15_own_contents_*, '
+    'C15_simulation for the sharing-independent operations), assignments and in-place operators as functions of '
+    '(contents, R), the evolution of the sharing relation R (C15_links_growth = "growth cuts links, never creates one" = '
+    'S-C15d; C15_links_view/_copy/_fresh/_write), pending lists (pend, F_split: F = C ++ pending) with '
+    'C15_pending_isolated (growth of another object) and C15_pending_under_writes (no assignment / in-place operator '
+    'changes any pending element), refusals (C15_append_refused_nothing, C15_own_contents_extend_refused), shrink_data, '
+    'concatenate (axis 0 and 1), tuple indices, deep copy.  Missing: the definition of spec_rel over (alive, visible, '
+    'pending) x R for the 21 operations and the case analysis that assembles these theorems (for concatenate(axis=0) '
+    'also "the new object is linked to nothing")',
     'C15_view_write_through at full strength is false of the faithful model (C15_view_write_through_refuted, S-C15d); '
     'proved: _partial (exactly the same-cell elements change, i.e. while the two objects share the buffer)',
-    'domain restrictions of the model (reported as EBadSeq, never generated): append of an element with another trailing '
-    'shape to a sequence WITHOUT elements (it may define the shape), shrink_data() inside a cached build (API misuse), '
-    'concatenate(axis=1) of sequences without rows (AxisError on the 1-D initial buffer); seq[idx, cols] is modelled as the '
-    'view seq[idx] (one Z per row) and such objects are only read by the harness',
-    'Tractogram: extend / += (C15_tractogram_extend_*), __getitem__ (C15_tractogram_getitem) and apply_affine on a sliced '
-    'tractogram (C15_tractogram_apply_affine_sliced) are proved on the model; copy (deepcopy), __add__ and the non-sliced '
-    'branch of apply_affine (whole buffer in place, or a NEW array that silently detaches every view when np.dot(out=) '
-    'refuses, e.g. float32 points) are covered by the harness predicate only; save/load not covered at all',
+    'domain restrictions of the model (reported as EBadSeq, never generated): append / extend of an element with another '
+    'trailing shape to a sequence WITHOUT elements (it may define the shape), shrink_data() inside a cached build (API '
+    'misuse), concatenate(axis=1) of sequences without rows (AxisError on the 1-D initial buffer); seq[idx, cols] is '
+    'modelled as the view seq[idx] (one Z per row) and such objects are only read by the harness',
+    'Tractogram: extend / += , __getitem__, copy (deep clone), __add__ and apply_affine on a SLICED tractogram are proved on '
+    'the model (C15_tractogram_*); the non-sliced branch of apply_affine is not modelled: whole buffer in place — which for '
+    'a float64 view WITH REPEATS whose rows add up to the buffer (is_sliced_view misclassifies it) alters parent elements '
+    'the view does not contain: reported as a violation candidate with demo and fix proposal in '
+    '.work/c15_apply_affine_finding.md, not classified — or a NEW array that silently detaches every view (float32); '
+    'save/load not covered at all',
 ]
 
 
